@@ -247,6 +247,14 @@ func (c *Collection) Pull(ctx context.Context, opts ...ReadOption) <-chan *Colle
 	go func() {
 		defer close(send)
 
+		// with an equivalence configured: what this subscriber holds per id, as it was sent.
+		// A change is judged against that, not against the value of the write just before it,
+		// or small steps each within tolerance would drift away unnoticed.
+		var held map[string]proto.Message
+		if c.equivalence != nil {
+			held = make(map[string]proto.Message)
+		}
+
 		if len(currentValues) > 0 {
 			sort.Slice(currentValues, func(i, j int) bool {
 				return currentValues[i].id < currentValues[j].id
@@ -262,6 +270,9 @@ func (c *Collection) Pull(ctx context.Context, opts ...ReadOption) <-chan *Colle
 					LastSeedValue: i == lastIndex,
 				}
 				change = change.filter(filter)
+				if held != nil {
+					held[change.Id] = change.NewValue
+				}
 				select {
 				case <-ctx.Done():
 					return
@@ -277,8 +288,21 @@ func (c *Collection) Pull(ctx context.Context, opts ...ReadOption) <-chan *Colle
 				continue
 			}
 			change = change.filter(filter)
-			if c.equivalence != nil && c.equivalence.Compare(change.OldValue, change.NewValue) {
-				continue
+			if c.equivalence != nil {
+				if old, ok := held[change.Id]; ok && old != change.OldValue {
+					// writes in between were not reported: the old value is the one last sent
+					withHeld := *change
+					withHeld.OldValue = old
+					change = &withHeld
+				}
+				if c.equivalence.Compare(change.OldValue, change.NewValue) {
+					continue
+				}
+				if change.NewValue == nil {
+					delete(held, change.Id)
+				} else {
+					held[change.Id] = change.NewValue
+				}
 			}
 			select {
 			case send <- change:
